@@ -179,7 +179,12 @@ RunClauses ==
                  ELSE <<>>)
         [] Run.op = "backward" -> On("C17", C17_H(Cfg, Run))
         [] Run.op = "reverse" -> << <<"L2.reverse", Run.final.lg = ReverseLogsF(Pre.lg) /\ Run.final.st = Pre.st>> >>
-        [] Run.op \in {"remove_absence", "insert_absence"} -> On("C18", C18_H(Cfg, Run, Pre))
+        [] Run.op = "remove_absence" ->
+             On("C18", C18_H(Cfg, Run, Pre))
+             \o << <<"L2.remove_absence", Run.ret = "ok" /\ Run.final.lg = RemoveAbsenceF(Pre.lg)>> >>
+        [] Run.op = "insert_absence" ->
+             On("C18", C18_H(Cfg, Run, Pre))
+             \o << <<"L2.insert_absence", Run.ret = "ok" /\ Run.final.lg = InsertAbsenceF(Cfg, Pre.lg, Run.args.L)>> >>
         [] Run.op = "saveload" -> On("C16", C16_H(Cfg, Run, Pre))
         [] OTHER -> <<>>)
 
